@@ -8,6 +8,7 @@ package logic
 // for v13+ varint branches). All randomness comes from a c31Src (rapid draws, or bytes of a fuzz input).
 
 import (
+	"bytes"
 	"encoding/binary"
 	"encoding/hex"
 	"fmt"
@@ -1406,7 +1407,7 @@ func (g *c31Gen) tmplSub(depth int) {
 		case 3:
 			if depth < 2 && c31Pct(s, 50) {
 				g.tmplSub(depth + 1)
-			} else if c31Pct(s, 30) { // recursion into self: runs until the budget is gone
+			} else if c31Pct(s, 30) && !(g.strict && fStart == len(g.ins)) { // recursion into self: runs until the budget is gone
 				g.emit(cs, c31Imm{kind: g.labelKind("callsub"), tgt: fStart})
 			} else {
 				g.generic(1)
@@ -1524,7 +1525,11 @@ func (g *c31Gen) tmplItxn() {
 		g.generic(3)
 		return
 	}
+	settable := c31ValidFields(&ItxnSettableFields, g.v)
 	set := func(f TxnField, push func()) {
+		if g.strict && bytes.IndexByte(settable, byte(f)) < 0 {
+			return // not settable at this version: the assembler refuses it
+		}
 		push()
 		g.emit(itf, c31B(byte(f)))
 		g.pop(1)
